@@ -132,6 +132,27 @@ def handleObserved (j : Json) : Json :=
     Json.mkObj [("observed_certified", Json.bool (Smi.certifyObserved (decodeONode t) out.toList))]
   | _ => Json.mkObj [("error", "no tree")]
 
+def handleCreate (j : Json) : Json :=
+  let recipe : Recipe := match j.getObjVal? "recipe" with
+    | .ok (Json.arr a) => a.toList.filterMap (fun x => match x with
+        | Json.arr #[Json.str t, ty] => (ty.getNat?.toOption).map (fun n => (t.toList, n))
+        | _ => none)
+    | _ => []
+  let config := ((j.getObjValAs? String "config").toOption.getD "").toList
+  match Model.create recipe config with
+  | none => Json.mkObj [("kind", "raises")]
+  | some r =>
+    Json.mkObj [("kind", "ok"),
+      ("table", Json.str (match r.table with | .pyranose => "pyranose" | .furanose => "furanose" | .open_ => "open" | .succinic => "succinic" | .unknown => "unknown")),
+      ("key", charsToJson r.key),
+      ("row_key", match r.row with | some row => charsToJson row.key | none => Json.null),
+      ("smiles", match r.row with | some row => charsToJson row.smiles | none => Json.null),
+      ("name", match r.row with | some row => charsToJson row.name | none => Json.null),
+      ("config", match r.row with | some row => Json.num row.config | none => Json.null),
+      ("isomer", match r.row with | some row => Json.num row.isomer | none => Json.null),
+      ("lactole", match r.row with | some row => Json.num row.lactole | none => Json.null),
+      ("recipe", recipeToJson r.recipe)]
+
 def handleReact (j : Json) : Json :=
   let str (k : String) := ((j.getObjValAs? String k).toOption.getD "").toList
   let nat (k : String) := (j.getObjValAs? Nat k).toOption.getD 0
@@ -168,6 +189,7 @@ def handle (line : String) : Json :=
     | some "convert" => handleConvert j
     | some "cli" => handleCli j
     | some "gate" => handleGate j
+    | some "create" => handleCreate j
     | some "merge" => handleMerge j
     | some "observed" => handleObserved j
     | some "react" => handleReact j
